@@ -301,7 +301,18 @@ impl<const N: u32> PxE1<{ N }> {
         }
 
         let i_z = convert_px1bits_to_u32(ui_a);
-        u32_with_sign(i_z, sign) as i32
+        // saturate: PxE1<N> reaches 2^31 and beyond from N = 18 on
+        if sign {
+            if i_z >= 0x_8000_0000 {
+                i32::min_value()
+            } else {
+                -(i_z as i32)
+            }
+        } else if i_z > 0x_7FFF_FFFF {
+            i32::max_value()
+        } else {
+            i_z as i32
+        }
     }
 
     pub const fn to_u32(self) -> u32 {
@@ -344,17 +355,15 @@ impl<const N: u32> PxE1<{ N }> {
     }
 
     pub const fn from_u64(a: u64) -> Self {
-        let ui_a = if a == 0x_8000_0000_0000_0000 {
-            0x_8000_0000
-        } else if N == 2 {
+        let ui_a = if N == 2 {
             if a > 0 {
                 0x_4000_0000
             } else {
                 0
             }
-        } else if a > 0x_8000_0000_0000_0000 {
-            //576460752303423488 -> wrong number need to change
-            0x_7FFF_FFFF & ((0x_8000_0000_u64 >> (N - 1)) as u32) // 1152921504606847000
+        } else if a >= 0x_8000_0000_0000_0000 {
+            // 2^63 and above: beyond maxpos = 2^(2N-4) <= 2^60 for every width
+            0x_7FFF_FFFF & Self::mask()
         } else {
             convert_u64_to_px1bits::<{ N }>(a)
         };
